@@ -1,4 +1,5 @@
 import AioslskVerif.Proofs.WireTop
+import AioslskVerif.Proofs.Obfs
 import AioslskVerif.Generated.Schemas
 import AioslskVerif.Spec.Pinned
 /-!
@@ -110,6 +111,29 @@ theorem C01_roundtrip_all (z : Zlib) (hz : Zlib.Lawful z) (i : Nat) (s : MsgSche
     dispatch z Generated.Schemas.schemas s.family s.dir fr = .ok (i, vs) :=
   C01_roundtrip_dispatch z hz _ i s vs fr C01_generated_wf hs hd he
 
+/-- **Obfuscation**: for every 4-byte key and every byte string (any length: 0, < 4, not a multiple
+of 4, longer than the 128-byte key table) de-obfuscating the obfuscated data gives the data back. -/
+theorem C01_obfuscation (key data : Obfs.Bytes) (hk : key.length = 4) :
+    Obfs.decode (Obfs.encode key data) = data := by
+  unfold Obfs.decode Obfs.encode
+  have ht : (key ++ Obfs.encLoop 0 key data).take 4 = key := by
+    rw [List.take_append_of_le_length (by omega), List.take_of_length_le (by omega)]
+  have hd : (key ++ Obfs.encLoop 0 key data).drop 4 = Obfs.encLoop 0 key data := by
+    rw [← hk]; exact List.drop_left
+  simp only [ht, hd]
+  rw [Obfs.encLoop_eq key data 0 key (by simp), Obfs.encSpec_length]
+  apply Obfs.xorAt_encSpec
+  intro p _ hp
+  exact Obfs.fullKey_byte key data.length p (by omega)
+
+/-- the obfuscated form starts with the key and has the same length as key + data (the frame length
+read from the first 4 de-obfuscated bytes therefore still delimits the frame) -/
+theorem C01_obfuscation_shape (key data : Obfs.Bytes) :
+    (Obfs.encode key data).length = key.length + data.length ∧ (Obfs.encode key data).take key.length = key := by
+  unfold Obfs.encode
+  rw [Obfs.encLoop_eq key data 0 key (by simp)]
+  simp [Obfs.encSpec_length]
+
 /-! ## Non-vacuity: concrete in-domain values of the tricky classes -/
 section examples
 def idZ : Zlib := { deflate := id, inflate := some }
@@ -127,6 +151,7 @@ example : (Generated.Schemas.schemas[2]?).map (fun s => inDomain s [.nat 2234, .
 /-- … and a value OUTSIDE the domain (hole in the optional prefix) is recognised as such -/
 example : (Generated.Schemas.schemas[2]?).map (fun s => inDomain s [.nat 2234, .absent, .nat 2235]) = some false := by
   decide +kernel
+example : Obfs.decode (Obfs.encode [1, 2, 3, 4] [10, 20, 30, 40, 50]) = [10, 20, 30, 40, 50] := by decide
 end examples
 
 end AioslskVerif.C01
